@@ -69,18 +69,24 @@ Lemma clsdesc_eqb_eq : forall a b, clsdesc_eqb a b = true <-> a = b.
 Proof.
   intros a b; split.
   - unfold clsdesc_eqb; intros H.
-    repeat (apply andb_prop in H; destruct H as [H ?]).
-    destruct a, b; cbn in *.
-    repeat match goal with
-           | h : N.eqb _ _ = true |- _ => apply N.eqb_eq in h
-           | h : Bool.eqb _ _ = true |- _ => apply bool_eqb_eq in h
-           | h : sm_eqb _ _ = true |- _ => apply sm_eqb_eq in h
-           end.
-    subst; reflexivity.
+    destruct a, b; cbn in H.
+    apply andb_prop in H; destruct H as [H H12]; apply sm_eqb_eq in H12.
+    apply andb_prop in H; destruct H as [H H11]; apply sm_eqb_eq in H11.
+    apply andb_prop in H; destruct H as [H H10]; apply sm_eqb_eq in H10.
+    apply andb_prop in H; destruct H as [H H9]; apply sm_eqb_eq in H9.
+    apply andb_prop in H; destruct H as [H H8]; apply sm_eqb_eq in H8.
+    apply andb_prop in H; destruct H as [H H7]; apply sm_eqb_eq in H7.
+    apply andb_prop in H; destruct H as [H H6]; apply Bool.eqb_prop in H6.
+    apply andb_prop in H; destruct H as [H H5]; apply Bool.eqb_prop in H5.
+    apply andb_prop in H; destruct H as [H H4]; apply Bool.eqb_prop in H4.
+    apply andb_prop in H; destruct H as [H H3]; apply Bool.eqb_prop in H3.
+    apply andb_prop in H; destruct H as [H H2]; apply Bool.eqb_prop in H2.
+    apply andb_prop in H; destruct H as [H H1]; apply Bool.eqb_prop in H1.
+    apply N.eqb_eq in H.
+    congruence.
   - intros ->; unfold clsdesc_eqb.
     rewrite N.eqb_refl, !Bool.eqb_reflx.
-    repeat match goal with |- context [sm_eqb ?x ?x] => replace (sm_eqb x x) with true by (destruct x; reflexivity) end.
-    reflexivity.
+    destruct (c_dctor b), (c_cctor b), (c_mctor b), (c_cassign b), (c_massign b), (c_dtor b); reflexivity.
 Qed.
 
 Lemma cty_eqb_refl : forall a, cty_eqb a a = true.
@@ -109,19 +115,20 @@ Proof.
     using cty_ind'; intros b H; destruct b; cbn [cty_eqb] in H; try discriminate; try reflexivity.
   - apply arith_eqb_eq in H; now subst.
   - apply andb_prop in H; destruct H as [H H3]. apply andb_prop in H; destruct H as [H1 H2].
-    apply bool_eqb_eq in H1; apply arith_eqb_eq in H2; apply N.eqb_eq in H3; now subst.
+    apply Bool.eqb_prop in H1; apply arith_eqb_eq in H2; apply N.eqb_eq in H3; now subst.
   - f_equal; auto.
   - f_equal; auto.
   - f_equal; auto.
   - apply andb_prop in H; destruct H as [H1 H2]. apply opt_n_eqb_eq in H2. f_equal; auto.
   - repeat (apply andb_prop in H; destruct H as [H ?]).
     repeat match goal with
-           | h : Bool.eqb _ _ = true |- _ => apply bool_eqb_eq in h
+           | h : Bool.eqb _ _ = true |- _ => apply Bool.eqb_prop in h
            | h : refq_eqb _ _ = true |- _ => apply refq_eqb_eq in h
            end.
     subst. apply IHr in H. subst.
     assert (Hargs : args = args0).
-    { clear - IHa H4. revert args0 H4.
+    { match goal with h : _ args args0 = true |- _ => rename h into Hleq end.
+      clear - IHa Hleq. revert args0 Hleq.
       induction IHa as [|x xs Hx _ IHl]; intros [|y ys] H; try discriminate; [reflexivity|].
       apply andb_prop in H; destruct H as [H1 H2]. f_equal; auto. }
     now subst.
@@ -129,7 +136,7 @@ Proof.
   - apply clsdesc_eqb_eq in H; now subst.
   - apply clsdesc_eqb_eq in H; now subst.
   - apply andb_prop in H; destruct H as [H H3]. apply andb_prop in H; destruct H as [H1 H2].
-    apply bool_eqb_eq in H1; apply bool_eqb_eq in H2. f_equal; auto.
+    apply Bool.eqb_prop in H1; apply Bool.eqb_prop in H2. f_equal; auto.
 Qed.
 
 Theorem cty_eqb_eq : forall a b, cty_eqb a b = true <-> a = b.
